@@ -1,6 +1,7 @@
 import I18n.Model.Date
 import I18n.Spec.Date
 /- Facts about the generated abbreviation table (kernel evaluation over the 210 entries dumped from the live module). -/
+set_option linter.unusedSimpArgs false
 namespace I18n.Date
 open I18n.Spec.Date I18n.Generated
 
